@@ -167,14 +167,25 @@ def run_query_case(case):
         world.PredicatePlan.reset(ev.get("at", 0))
         ambient = []
         from entity_query_language import symbolic_mode as _sm, rule_mode as _rm
+        pre_it, pre_rows = None, []
+        if op == "drain" and ev.get("split") is not None:
+            # the iterator is created and advanced `split` times under the opposite mode, the rest under `ambient`
+            try:
+                pre_it = iter(b.query.evaluate())
+                for _ in range(ev["split"]):
+                    pre_rows.append(b.row(next(pre_it), index_of))
+            except StopIteration:
+                pass
+            except Exception as e:
+                rec["exc"] = exc_name(e)
         for kind in {"none": [], "query": ["q"], "rule": ["r"], "nested": ["q", "r"]}[ev.get("ambient", "none")]:
             cm = _sm() if kind == "q" else _rm()
             cm.__enter__()
             ambient.append(cm)
         try:
             if op == "drain":
-                rec["rows"] = []
-                for r in b.query.evaluate():
+                rec["rows"] = list(pre_rows)
+                for r in (pre_it if pre_it is not None else b.query.evaluate()):
                     rec["rows"].append(b.row(r, index_of))
             elif op in ("partial", "raised"):
                 rec["rows"] = []
